@@ -465,8 +465,24 @@ func setJSONRoundTrip(ids []string, ps []*ir.Policy, doc []byte, calls callKinds
 func checkSet(c *SetCase) (sub, msg string) {
 	ps := cedar.NewPolicySet()
 	if err := guard(func() error {
+		// The set is encoded once before it is complete: the first id is bound to another policy of the case at that time
+		// and only afterwards replaced (under the same id) by its own. The encoding asked for at the end has to describe
+		// the set as it is then.
+		n := len(c.IDs)
 		for i, id := range c.IDs {
+			if n >= 2 && id == c.IDs[0] {
+				ps.Add(cedar.PolicyID(id), conv.ToPolicy(c.Policies[n-1]))
+				continue
+			}
 			ps.Add(cedar.PolicyID(id), conv.ToPolicy(c.Policies[i]))
+		}
+		if n >= 2 {
+			_, _ = ps.MarshalJSON()
+			for i, id := range c.IDs {
+				if id == c.IDs[0] {
+					ps.Add(cedar.PolicyID(id), conv.ToPolicy(c.Policies[i]))
+				}
+			}
 		}
 		return nil
 	}); err != nil {
